@@ -2,6 +2,7 @@ import Rare.Base.Proto
 import Rare.Model.C15
 import Rare.Model.C15Trunc
 import Rare.Model.C15Rename
+import Rare.Model.C15Replace
 import Rare.Model.C15Wiring
 import Rare.Model.C15Api
 import Rare.Model.C15Tail
@@ -50,6 +51,12 @@ def nTrunc (s : NSt UInt8) (n : Nat) : NSt UInt8 :=
 def nRename (cfg : NCfg) (s : NSt UInt8) : NSt UInt8 :=
   match s.fs.path with
   | some _ => { s with fs := s.fs.remove, evq := s.evq ++ [renameEv cfg], removes := s.removes + 1 }
+  | none => s
+
+/-- `o<hex>`: a new file with this content is renamed onto the path – the writer step of `NStepO` (as the code is) -/
+def nReplace (s : NSt UInt8) (bs : Bytes) : NSt UInt8 :=
+  match s.fs.path with
+  | some _ => { s with fs := s.fs.replace bs, evq := s.evq ++ [.create] }
   | none => s
 
 /-- one step of the kernel goroutine, if it has one -/
@@ -113,6 +120,12 @@ def pTrunc (s : PSt UInt8) (n : Nat) : PSt UInt8 :=
   | some i => if n < (s.fs.content i).length then { s with fs := s.fs.truncate i n } else s
   | none => s
 
+/-- `o<hex>` for the poller: all it can see is the path – removal, creation and content in one step -/
+def pReplace (s : PSt UInt8) (bs : Bytes) : PSt UInt8 :=
+  match s.fs.path with
+  | some _ => { s with fs := s.fs.replace bs, removes := s.removes + 1 }
+  | none => s
+
 /-- One call cycle of the polling reader starting at `attempt 0`: `some s'` if something happened
     (bytes delivered / file re-opened / EOF), `none` after a quiet cycle (the `ReadAttempts` empty
     reads and the `Stat` changed nothing but the attempt counter). -/
@@ -167,6 +180,7 @@ inductive Op
   | lateAppend (b : Bytes)   -- `L`: release the consumer, then an append timed into the poller's last sleep
   | trunc (n : Nat)          -- `t<n>`: truncate the file at the path to `n` bytes, in place
   | rename                   -- `m`: rename the file at the path away
+  | replace (b : Bytes)      -- `o<hex>`: a new file with this content is renamed onto the path
   deriving Repr
 
 def parseOp (st : String) : Option Op :=
@@ -174,6 +188,7 @@ def parseOp (st : String) : Option Op :=
   | 'a' :: r => (Hex.dec (String.ofList r)).map .append
   | 'q' :: r => (Hex.dec (String.ofList r)).map .append
   | 't' :: r => (String.ofList r).toNat?.map .trunc
+  | 'o' :: r => (Hex.dec (String.ofList r)).map .replace
   | 'H' :: r => (Hex.dec (String.ofList r)).map .hold
   | 'L' :: r => (Hex.dec (String.ofList r)).map .lateAppend
   | 'p' :: _ => some .pause
@@ -203,6 +218,7 @@ def runNotify (cfg : NCfg) (prefD kf : Bool) (s0 : NSt UInt8) (startHeld : Bool)
     | .create => { sim with st := settle sim.held (nCreate sim.st) }
     | .trunc n => { sim with st := settle sim.held (nTrunc sim.st n) }
     | .rename => { sim with st := settle sim.held (nRename cfg sim.st) }
+    | .replace b => { sim with st := settle sim.held (nReplace sim.st b) }
     | .hold b =>
       if sim.held || b.isEmpty || sim.st.fs.path.isNone then { sim with st := settle sim.held (nAppend sim.st b) }
       else
@@ -225,6 +241,7 @@ def runPoll (cfg : PCfg) (s0 : PSt UInt8) (startHeld : Bool) (ops : List Op) : P
     | .create => { sim with st := settle sim.held (pCreate sim.st) }
     | .trunc n => { sim with st := settle sim.held (pTrunc sim.st n) }
     | .rename => { sim with st := settle sim.held (pRemove sim.st) }
+    | .replace b => { sim with st := settle sim.held (pReplace sim.st b) }
     | .hold b =>
       if sim.held || b.isEmpty || sim.st.fs.path.isNone then { sim with st := settle sim.held (pAppend sim.st b) }
       else { st := settle false (pAppend sim.st b), held := true }
@@ -503,6 +520,43 @@ def apiAnswer (content calls : String) : String :=
     s!"ok {",".intercalate (rs.map showRes)} delivered={s.delivered.length}"
   | _, _ => "bad-args"
 
+/-- `follow` (the code as it is) / `followspec` (an atomic replace counts as removal + re-creation: what the
+    property asks of re-open follow – the KNOWN FINDING of `known_findings/C15.json` is the difference) -/
+def followAnswer (spec : Bool) (mode reopenS tailS hist : String) : String :=
+  let reopen := reopenS == "1"
+  let tail := tailS == "1"
+  let steps := hist.splitOn ","
+  let first := steps.headD ""
+  let c0 : Option Bytes :=
+    match first.toList with
+    | 'i' :: r => Hex.dec (String.ofList r)
+    | _ => none
+  let rest := match first.toList with
+    | 'i' :: _ => steps.drop 1
+    | ['n'] => steps.drop 1
+    | _ => steps
+  if first.startsWith "i" && c0.isNone then "bad-args" else
+  match rest.mapM parseOp with
+  | none => "bad-args"
+  | some ops0 =>
+    -- `followspec`: a replace is what the property calls removal + re-creation (+ the content)
+    let ops := if spec then ops0.flatMap (fun o => match o with | .replace b => [Op.remove, .create, .append b] | o => [o]) else ops0
+    if c0.isNone && !reopen then "ok - eof=0 drainerr=0 newerr=1" else
+    let startHeld := steps.contains "S"
+    let attempts := (steps.filterMap fun st => if st.startsWith "A" then (st.drop 1).toNat? else none).getLastD 2
+    if mode == "notify" then
+      let run := fun (prefD kf : Bool) =>
+        runNotify { capW := 1, capD := 1, reopen := reopen } prefD kf (ninit c0 tail) startHeld ops
+      let a := run true true
+      let others := [run false true, run true false, run false false]
+      if others.all fun o => o.delivered == a.delivered && (o.rd == .ended) == (a.rd == .ended) then
+        answer a.delivered (a.rd == .ended)
+      else "schedule-dependent"
+    else if mode == "poll" then
+      let s := runPoll { attempts := attempts, reopen := reopen } (pinit c0 tail) startHeld ops
+      answer s.delivered (s.rd == .ended)
+    else "bad-args"
+
 def handle : List String → String
   | ["api", _, _, content, calls] => apiAnswer content calls
   | ["new", r, p, e] => newAnswer (r == "1") (p == "1") (e == "1")
@@ -510,38 +564,8 @@ def handle : List String → String
   | ["tailb", blob] => tailb blob
   | ["ttrace", blob] => ttrace blob false
   | ["tmut", blob] => ttrace blob true
-  | ["follow", mode, reopenS, tailS, hist] =>
-    let reopen := reopenS == "1"
-    let tail := tailS == "1"
-    let steps := hist.splitOn ","
-    let first := steps.headD ""
-    let c0 : Option Bytes :=
-      match first.toList with
-      | 'i' :: r => Hex.dec (String.ofList r)
-      | _ => none
-    let rest := match first.toList with
-      | 'i' :: _ => steps.drop 1
-      | ['n'] => steps.drop 1
-      | _ => steps
-    if first.startsWith "i" && c0.isNone then "bad-args" else
-    match rest.mapM parseOp with
-    | none => "bad-args"
-    | some ops =>
-      if c0.isNone && !reopen then "ok - eof=0 drainerr=0 newerr=1" else
-      let startHeld := steps.contains "S"
-      let attempts := (steps.filterMap fun st => if st.startsWith "A" then (st.drop 1).toNat? else none).getLastD 2
-      if mode == "notify" then
-        let run := fun (prefD kf : Bool) =>
-          runNotify { capW := 1, capD := 1, reopen := reopen } prefD kf (ninit c0 tail) startHeld ops
-        let a := run true true
-        let others := [run false true, run true false, run false false]
-        if others.all fun o => o.delivered == a.delivered && (o.rd == .ended) == (a.rd == .ended) then
-          answer a.delivered (a.rd == .ended)
-        else "schedule-dependent"
-      else if mode == "poll" then
-        let s := runPoll { attempts := attempts, reopen := reopen } (pinit c0 tail) startHeld ops
-        answer s.delivered (s.rd == .ended)
-      else "bad-args"
+  | ["follow", mode, reopenS, tailS, hist] => followAnswer false mode reopenS tailS hist
+  | ["followspec", mode, reopenS, tailS, hist] => followAnswer true mode reopenS tailS hist
   | _ => "bad-op"
 
 end Rare.Drv.C15
